@@ -658,7 +658,7 @@ class World(object):
             self.step()
         return cond(self)
 
-    def connect_client(self, c=None, max_ticks=400, with_callback=True, attempts=4):
+    def connect_client(self, c=None, max_ticks=1200, with_callback=True, attempts=10):
         """honest handshake; like an application, retry connect() when an attempt gets no answer
         (UdpClient sends the hello once; a stale half-open entry at the server swallows the first retry)"""
         c = c or self.add_client()
